@@ -9,8 +9,10 @@ from vlib.runner import Result
 PROPERTY = 'C16'
 LEVEL = 'exploration'
 RULE = ('op lists over acquire(w<=capacity) [a new task entering `async with sem(w)`] and release(i) [the i-th current holder '
-        'leaves its with-block]; the loop is drained to quiescence after every op. Oracle: invariants from the statement '
-        '(sum held <= capacity; grant order == arrival order; head waiter blocked only if its weight > free; '
+        'leaves its with-block] and release-then-reacquire(i, w) [the releasing task acquires again in the same task step]; the loop is '
+        'drained to quiescence after an op unless the op is tagged same-step (the next op then happens before anybody woken by this '
+        'one has resumed: two releases in one loop step, an arrival in the step of a release). Oracle (at quiescent points): invariants from the statement '
+        '(sum held <= capacity; grant order == arrival order -- as a set prefix once same-step ops occurred, because a waiter granted inside release() enters its body after a later fast-path arrival; head waiter blocked only if its weight > free; '
         'sem.value == capacity - sum held) plus agreement with a deque reference model. Exhaustive enumeration of all '
         'sequences up to a length bound for small capacities; Hypothesis lists for capacity 1..16. Non-trivial: some release '
         'wakes >= 2 waiters, or leaves a fitting non-head waiter blocked behind a too-heavy head.')
@@ -45,12 +47,19 @@ def run_case(case):
         m_queue = []          # [(id, w)]
         m_holding = {}
 
+        reacq = {}            # holder id -> (new id, new weight): on release the same task acquires again without yielding
+
         async def body(i, w):
-            async with sem(w):
-                granted.append(i)
-                holding[i] = w
-                await gates[i]
-                del holding[i]
+            while True:
+                async with sem(w):
+                    granted.append(i)
+                    holding[i] = w
+                    await gates[i]
+                    del holding[i]
+                nxt = reacq.pop(i, None)
+                if nxt is None:
+                    return
+                i, w = nxt
 
         def model_release(w):
             nonlocal m_free
@@ -77,20 +86,44 @@ def run_case(case):
                 else:
                     m_queue.append((i, w))
             else:
-                hs = sorted(holding)
+                hs = sorted(i for i in holding if not gates[i].is_open)
                 if not hs:
                     classes.add('skipped_release')
                     continue
                 i = hs[op[1] % len(hs)]
+                if op[0] == 'ra':
+                    # the releasing task acquires again at once (same task step): it arrives behind everybody already queued
+                    j = next_id
+                    next_id += 1
+                    w2 = 1 + (op[2] - 1) % cap
+                    weights[j] = w2
+                    gates[j] = Gate(loop)
+                    reacq[i] = (j, w2)
+                    classes.add('release_then_reacquire_same_step')
                 gates[i].open()
                 w = m_holding.pop(i)
                 model_release(w)
+                if op[0] == 'ra':
+                    arrival.append(j)
+                    if not m_queue and m_free >= w2:
+                        m_free -= w2
+                        m_holding[j] = w2
+                    else:
+                        m_queue.append((j, w2))
+            if op[-1] == 'same-step' and step + 1 < len(ops):
+                # the next op happens in the same event-loop step: nobody woken by this one has resumed yet
+                classes.add('ops_in_same_loop_step')
+                continue
             loop.settle()
             # ---- oracle after every op
             held = sum(holding.values())
             if held > cap:
                 fails.append(('over-capacity', 'sum of granted weights <= capacity', f'step {step}: held {held} > cap {cap}'))
-            if granted != arrival[:len(granted)]:
+            # the order in which bodies are ENTERED equals the grant order only while every woken waiter resumes before the next
+            # op; with ops in the same loop step a waiter granted inside release() enters after a later arrival that was granted
+            # on the fast path, so there the granted SET must be a prefix of the arrival order
+            same_step_seen = any(o[-1] == 'same-step' or o[0] == 'ra' for o in ops[:step + 1])
+            if (granted != arrival[:len(granted)]) if not same_step_seen else (sorted(granted) != sorted(arrival[:len(granted)])):
                 fails.append(('not-fifo', 'grants happen strictly in arrival order',
                               f'step {step}: grant order {granted} vs arrival {arrival}'))
             waiting = [i for i in arrival if i not in granted]
@@ -103,7 +136,7 @@ def run_case(case):
             if set(holding) != set(m_holding):
                 fails.append(('model-mismatch', 'holders equal the reference FIFO model',
                               f'step {step}: holders {sorted(holding)} model {sorted(m_holding)}'))
-            if op[0] == 'r':
+            if op[0] in ('r', 'ra'):
                 woke = len(granted) - woken_before
                 if woke >= 2:
                     nontrivial = True
@@ -178,8 +211,10 @@ def run_shard(spec, seed, tier):
     else:
         from hypothesis import strategies as st
         from vlib.hyp import search
-        op = st.one_of(st.tuples(st.just('a'), st.integers(1, 16)).map(list),
-                       st.tuples(st.just('r'), st.integers(0, 7)).map(list))
+        tick = st.sampled_from(['settle', 'settle', 'same-step'])
+        op = st.one_of(st.tuples(st.just('a'), st.integers(1, 16), tick).map(list),
+                       st.tuples(st.just('r'), st.integers(0, 7), tick).map(list),
+                       st.tuples(st.just('ra'), st.integers(0, 7), st.integers(1, 16), tick).map(list))
         strat = st.builds(lambda cap, ops: dict(cap=cap, ops=ops), st.integers(1, 16), st.lists(op, min_size=1, max_size=60))
         search(res, PROPERTY, strat, run_case, spec['n'], seed)
     return res
